@@ -344,6 +344,39 @@ def swan(rng, d, opts):
     return [p], {"time": np.array(times) if opts["time"] else None, "freq": f, "dir": th_true, "E": np.array(E), "x": x, "y": y, "kinds": kinds}
 
 
+def swan_series(rng, d, name, f, th, x, y, t0, nt, step=3600):
+    """Plain SWAN ASCII point file (LONLAT, AFREQ, NDIR, VaDens, TIME, FACTOR blocks only) with given
+    grids, locations and time axis - building block for multi-file readers."""
+    ft, fv = _parse("%10.4f", f)
+    dt_, dv = _parse("%10.4f", th)
+    L = ["SWAN   1                                Swan standard spectral file, version", "$   Data produced by SWAN version 41.31", "$   Project: test ; run number: 1",
+         "TIME                                    time-dependent data", "     1                                  time coding option",
+         "LONLAT                                  locations in spherical coordinates", "%6d                                  number of locations" % len(x)]
+    L += ["%14.6f %14.6f" % (a, b) for a, b in zip(x, y)]
+    L += ["AFREQ                                   absolute frequencies in Hz", "%6d                                  number of frequencies" % len(f)] + list(ft)
+    L += ["NDIR                                    spectral nautical directions in degr", "%6d                                  number of directions" % len(th)] + list(dt_)
+    L += ["QUANT", "     1                                  number of quantities in table", "VaDens                                  variance densities in m2/Hz/degr",
+          "m2/Hz/degr                              unit", "   -0.9900E+02                          exception value"]
+    E, times = [], []
+    for k in range(nt):
+        t = t0 + np.timedelta64(k * step, "s")
+        s_ = str(t)
+        L.append("%s.%s                         date and time" % (s_[:10].replace("-", ""), s_[11:19].replace(":", "")))
+        row = []
+        for p in range(len(x)):
+            Et = lobes(rng, fv, dv)
+            fac = float("%.8E" % (Et.max() / 9999.0))
+            ints = np.rint(Et / fac).astype(int)
+            L += ["FACTOR", "    %.8E" % fac] + ["".join("%6d" % v for v in r) for r in ints]
+            row.append(ints * fac)
+        E.append(row)
+        times.append(t)
+    p_ = os.path.join(d, name)
+    with open(p_, "w") as fh:
+        fh.write("\n".join(L) + "\n")
+    return p_, np.array(times), np.array(E), fv, dv
+
+
 # --------------------------------------------------------------------------------------- XWAVES
 def xwaves(rng, d):
     from scipy.io import savemat
